@@ -522,12 +522,12 @@ int main(int argc, char **argv) {
   planbuf = (char *)mmap(NULL, 1 << 24, PROT_READ | PROT_WRITE, MAP_PRIVATE | MAP_ANONYMOUS | MAP_NORESERVE, -1, 0);
   if (argc >= 2 && !strcmp(argv[1], "serve")) {
     while (read_plan()) {
-      if (getenv("TSIM_NOFORK")) { signal(SIGALRM, on_alarm); alarm(10); parse(); int rc = run_scenario(); char l2[64]; snprintf(l2, sizeof l2, "X exit %d\n.\n", rc); real_write(1, l2, strlen(l2)); _exit(0); }
+      if (getenv("TSIM_NOFORK")) { signal(SIGALRM, on_alarm); alarm(80); parse(); int rc = run_scenario(); char l2[64]; snprintf(l2, sizeof l2, "X exit %d\n.\n", rc); real_write(1, l2, strlen(l2)); _exit(0); }
       char errpath[128]; snprintf(errpath, sizeof errpath, "%s/tsim-err-%08d", getenv("NSIM_TMP") ? getenv("NSIM_TMP") : "/tmp", (int)getpid());
       pid_t pid = fork();
       if (pid == 0) {
         int efd = open(errpath, O_WRONLY | O_CREAT | O_TRUNC, 0644); if (efd >= 0) { dup2(efd, 2); real_close(efd); }
-        signal(SIGALRM, on_alarm); alarm(10); parse(); _exit(run_scenario());
+        signal(SIGALRM, on_alarm); alarm(80); parse(); _exit(run_scenario());
       }
       int status = 0; while (waitpid(pid, &status, 0) < 0 && errno == EINTR) {}
       char line[64];
